@@ -57,7 +57,7 @@ REQUIRED = (
     + ["line:comment///", "line:label/symbol", "line:directive", "line:label+trailing-comment", "line:directive+trailing-comment",
        "line:directive+trailing-comment-with-comma"]
     + ["file/line:blank-empty", "file/line:blank-whitespace", "file/line:comment///", "file/line:label/symbol", "file/line:directive",
-       "file/final-newline", "file/starts-with-blank", "file/line:blank-other-whitespace", "file/mem:idx-ext", "file/tail:cmt//", "file/cc", "file/list:range"]
+       "file/final-newline", "file/starts-with-blank", "file/line:blank-other-whitespace", "mem:base-vector", "file/mem:idx-ext", "file/tail:cmt//", "file/cc", "file/list:range"]
 )
 
 
@@ -195,9 +195,10 @@ def cmp_operand(pos, e, o, follow, text, V):
     else:
         form = tag[4:]
         b = o.base
-        want_name = "sp" if e["base"] == "sp" else e["base"][1:]
-        if type(b).__name__ != "RegisterOperand" or b.prefix != "x" or str(b.name).lower() != want_name:
-            V.bad("aarch64/mem.base/" + ("sp" if e["base"] == "sp" else "xN"), "%s: base %s, written %s" % (ctx, asmgen.show(b), e["base"]))
+        want_name = "sp" if e["base"] == "sp" else e["base"][1:].split(".")[0]
+        want_prefix = "z" if e["base"].startswith("z") else "x"
+        if type(b).__name__ != "RegisterOperand" or b.prefix != want_prefix or str(b.name).lower() != want_name:
+            V.bad("aarch64/mem.base/" + ("sp" if e["base"] == "sp" else want_prefix + "N"), "%s: base %s, written %s" % (ctx, asmgen.show(b), e["base"]))
         if e["offset"] is None:
             if o.offset is not None:
                 V.bad("aarch64/mem.offset/spurious/" + e["form"], "%s: offset %s, none written" % (ctx, asmgen.show(o.offset)))
